@@ -385,7 +385,25 @@ fn case_cmdtext(id: &str, ctx: &mut Context, syms: &[ExprRef], text: &str, origi
     format!("(case {id} (kind cmdtext) (st{}) (text {}) (origin {}) (impl {}))", dump_st(ctx, syms), quote(text), quote(origin), dump_cmd_res(ctx, &res, stats))
 }
 
-fn case_script(id: &str, ctx: &mut Context, syms: &[ExprRef], lines: &[String], ncmds: u64, cmds_txt: &str, stats: &mut Stats) -> String {
+/// Would `read_response` wait for another line after this answer?  It does while it counts more opening than closing
+/// parentheses: every parenthesis in /repo as it is, only those outside "string literals" and |quoted symbols| with
+/// patches/0003.  An answer goes through the scripted solver only if neither count is positive.
+fn waits_for_more(answer: &str) -> bool {
+    let plain: i64 = answer.chars().map(|c| if c == '(' { 1 } else if c == ')' { -1 } else { 0 }).sum();
+    let (mut count, mut in_string, mut in_quoted) = (0i64, false, false);
+    for c in answer.chars() {
+        match c {
+            '"' if !in_quoted => in_string = !in_string,
+            '|' if !in_string => in_quoted = !in_quoted,
+            '(' if !in_string && !in_quoted => count += 1,
+            ')' if !in_string && !in_quoted => count -= 1,
+            _ => {}
+        }
+    }
+    plain > 0 || count > 0
+}
+
+fn case_script(id: &str, ctx: &mut Context, syms: &[ExprRef], lines: &[String], ncmds: u64, cmds_txt: &str, mutated: bool, stats: &mut Stats) -> String {
     let mut st = symtab_of(ctx, syms);
     let data: String = lines.concat();
     let mut inp = Limited { data: data.as_bytes(), pos: 0, eof_reads: 0 };
@@ -418,7 +436,7 @@ fn case_script(id: &str, ctx: &mut Context, syms: &[ExprRef], lines: &[String], 
         }
     }
     let ltxt: String = lines.iter().map(|l| format!(" {}", quote(l))).collect();
-    format!("(case {id} (kind script) (st{}) (lines{ltxt}) (cmds{cmds_txt}) (ncmds {ncmds}) (impl{steps}))", dump_st(ctx, syms))
+    format!("(case {id} (kind script) (st{}) (lines{ltxt}) (cmds{cmds_txt}) (ncmds {ncmds}) (mutated {}) (impl{steps}))", dump_st(ctx, syms), mutated as u8)
 }
 
 pub fn run(args: &Args) {
@@ -469,7 +487,8 @@ fn run_inner(args: &Args) {
                     let lines: Vec<String> = c.field("lines").unwrap_or(&[]).iter().map(|l| l.atom().to_string()).collect();
                     let ncmds = c.field("ncmds").map(|n| n[0].num()).unwrap_or(0);
                     let cmds_txt: String = c.field("cmds").unwrap_or(&[]).iter().map(|x| format!(" {}", sexp_to_string(x))).collect();
-                    case_script(&id, &mut ctx, &syms, &lines, ncmds, &cmds_txt, &mut stats)
+                    let mutated = c.field("mutated").map(|n| n[0].num() != 0).unwrap_or(cmds_txt.is_empty());
+                    case_script(&id, &mut ctx, &syms, &lines, ncmds, &cmds_txt, mutated, &mut stats)
                 }
                 "val" => {
                     let text = c.field("text").unwrap()[0].atom().to_string();
@@ -634,8 +653,7 @@ fn run_inner(args: &Args) {
                 };
                 // get_value waits for more lines while the answer has more opening than closing parentheses (it would
                 // block on the scripted solver): such texts go through parse_expr instead
-                let balance: i64 = response.chars().map(|c| if c == '(' { 1 } else if c == ')' { -1 } else { 0 }).sum();
-                if balance > 0 || response.contains('\n') {
+                if waits_for_more(&response) || response.contains('\n') {
                     let line = case_text(&id, &mut ctx, &[], &v, &format!("value-{via}"), &mut stats);
                     out.push(&mut stats, line);
                 } else {
@@ -688,7 +706,8 @@ fn run_inner(args: &Args) {
             "script" => {
                 // a few commands as the writer prints them, one per line; sometimes cut / with comments and blank lines
                 let mut lines: Vec<String> = vec![];
-                let mut cmds_txt = String::new();
+                let mut cmds_list: Vec<String> = vec![];
+                let mut mutated = false;
                 let mut pre_syms: Vec<ExprRef> = vec![];
                 {
                     let mut g = Gen::new(&mut ctx, &mut r);
@@ -712,7 +731,7 @@ fn run_inner(args: &Args) {
                         }
                         if let Ok(t) = write_cmd(&ctx, &cmd_to_impl(c)) {
                             lines.push(t);
-                            cmds_txt.push_str(&format!(" {}", dump_cmd(&ctx, c).0));
+                            cmds_list.push(format!(" {}", dump_cmd(&ctx, c).0));
                         }
                     }
                 }
@@ -737,7 +756,8 @@ fn run_inner(args: &Args) {
                             let (v, _) = variant(&mut r, l.trim_end());
                             lines.push(format!("{v}\n"));
                             ncmds -= 1;
-                            cmds_txt.clear();
+                            cmds_list.pop();
+                            mutated = true;
                         }
                     }
                     4 => {
@@ -747,10 +767,11 @@ fn run_inner(args: &Args) {
                     }
                     _ => {}
                 }
-                // for the variants that keep every command intact the originals are recorded (the oracle compares them)
+                // the commands that are kept intact are recorded (the oracle compares them); `mutated` = the last line is a malformed variant
                 // lines as read_line delivers them (a quoted symbol may contain a line break)
                 let lines: Vec<String> = lines.concat().split_inclusive('\n').map(|l| l.to_string()).collect();
-                let line = case_script(&id, &mut ctx, &pre_syms, &lines, ncmds, &cmds_txt, &mut stats);
+                let cmds_txt: String = cmds_list.concat();
+                let line = case_script(&id, &mut ctx, &pre_syms, &lines, ncmds, &cmds_txt, mutated, &mut stats);
                 out.push(&mut stats, line);
             }
             _ => {
@@ -798,8 +819,7 @@ fn run_inner(args: &Args) {
                         stats.bump("solver_answer", &format!("{name}:error"));
                         continue;
                     }
-                    let balance: i64 = answer.chars().map(|c| if c == '(' { 1 } else if c == ')' { -1 } else { 0 }).sum();
-                    if balance > 0 {
+                    if waits_for_more(&answer) {
                         stats.bump("solver_answer", &format!("{name}:unbalanced"));
                         continue;
                     }
